@@ -219,5 +219,76 @@ func scenarios(seed int64, thorough bool) []*Scenario {
 		add(sse)
 		add(mm)
 	}
+
+	// 5. SERVER-SIDE cancellation of the request context with the client still reading (round 4)
+	for _, d := range deadlineScenarios(r, thorough) {
+		add(d)
+	}
+	return out
+}
+
+// deadlineScenarios: the request context is cancelled by a middleware around the real handler.Server
+// (context.WithCancel, or context.WithTimeout) at EVERY point k of the payload sequence - before the first
+// payload, between payloads, after the last one - while the client stays connected and reads to EOF; the
+// operation produces its remaining payloads afterwards (a few milliseconds later each, so that whatever the
+// transport's helper goroutines do on ctx.Done() has happened). SSE with keep-alive intervals from
+// microseconds to beyond the stream's duration and without keep-alive; multipart/mixed with flush intervals
+// below and above the pauses (parts batched / alone).
+func deadlineScenarios(r *rand.Rand, thorough bool) []*Scenario {
+	var out []*Scenario
+	reps := 1
+	if thorough {
+		reps = 10
+	}
+	mode := func(i int) (string, int64) {
+		if i%2 == 0 {
+			return "cancel", 0
+		}
+		return "timeout", int64(6_000_000 + r.Intn(6_000_000))
+	}
+	// pause after the cancellation before each remaining payload / the end
+	after := func() int64 { return int64(3_000_000 + r.Intn(5_000_000)) }
+	ix := 0
+	for rep := 0; rep < reps; rep++ {
+		ivs := []int64{int64(2_000 + r.Intn(3_000)), int64(20_000 + r.Intn(60_000)), int64(300_000 + r.Intn(500_000)), int64(2_000_000 + r.Intn(2_000_000)), 50_000_000, 0}
+		for j, iv := range ivs {
+			n := 2 + (j+rep)%2
+			for k := 0; k <= n; k++ {
+				d := make([]int64, n)
+				for i := range d {
+					if i >= k {
+						d[i] = after()
+					} else {
+						d[i] = int64(r.Intn(400_000))
+					}
+				}
+				cls := "sse-deadline"
+				if iv == 0 {
+					cls = "sse-deadline-noka"
+				}
+				m, ns := mode(ix)
+				ix++
+				out = append(out, &Scenario{Class: cls, Kind: "sse", IntervalNs: iv, N: n, Sizes: pickSizes(r, n, false), DelaysNs: d, EndDelayNs: after(),
+					CancelMode: m, CancelAt: k, CancelNs: ns, CutAt: -1})
+			}
+		}
+		for j, iv := range []int64{1_000_000, 12_000_000} {
+			n := 2 - (j+rep)%2 // incremental payloads; total = n + 1
+			for k := 0; k <= n+1; k++ {
+				d := make([]int64, n+1)
+				for i := range d {
+					if i >= k {
+						d[i] = after()
+					} else if r.Intn(2) == 0 {
+						d[i] = int64(r.Intn(2_500_000))
+					}
+				}
+				m, ns := mode(ix)
+				ix++
+				out = append(out, &Scenario{Class: "mm-deadline", Kind: "mm", IntervalNs: iv, N: n, Sizes: pickSizes(r, n+1, false), DelaysNs: d, EndDelayNs: after(),
+					CancelMode: m, CancelAt: k, CancelNs: ns, CutAt: -1})
+			}
+		}
+	}
 	return out
 }
